@@ -488,7 +488,7 @@ def gen_tree_B(rng, scratch, k, plain=False):
 
 def part_B(chk, binary, scratch, res_broken):
     rng = chk.rng
-    n = 110 if chk.tier == "quick" else 1500
+    n = 110 if chk.tier == "quick" else 800
     projs = []
     for k in range(n):
         plain = rng.random() < 0.4
@@ -1008,10 +1008,14 @@ def run(chk):
         "module names (segments joined by `_`) are modelled injectively as segment lists: generated names contain no `_`",
     ]
     chk.assumptions = [
-        "theorems are about the model; the real resolvers are compared with it on generated trees (nesting <= 3, both extensions, mod/__init__ files, Cargo.toml/src markers, relative and absolute entry spellings)",
+        "theorems are about the model; the real resolvers/collectors/checker are compared with it on generated trees only (nesting <= 3, both extensions, mod/__init__ files, Cargo.toml/src markers, relative and absolute entry spellings)",
+        "all generated source files lex and parse (a dependency with a syntax error aborts the CLI and yields a summary diagnostic in the LSP: not modelled)",
+        "the LSP is driven with nothing but the entry open (in-memory versions of dependencies are not modelled)",
+        "the visibility model covers module-level references by bare name, method-call syntax m.x(..) and field syntax m.x; type annotations, trait adoption, patterns and E.V variant paths through imported names are not modelled",
+        "NOT covered: backend/ir/codegen.rs add_module/try_generate_multi_file_nested and backend/project.rs generate_nested (the generated src/ tree is not observed); module-name collisions of the `_` join (a_b vs a/b)",
     ]
     res = chk.proof_stage("C14", allow_axioms=(), rs2v_units=None)
-    binary = os.environ.get("VERIF_C14_BIN") or vlib.build_harness("debug")  # env override: development only
+    binary = vlib.build_harness("debug")
     ok, log = vlib.coq_build(["C14/Model.vo"])
     if not ok and "Error" not in log:
         raise vlib.Infra("coqbuild C14/Model.vo failed without a Coq error: " + log[-500:])
@@ -1073,7 +1077,7 @@ def _ancestors(p):
 def replay(path):
     """Re-create each recorded project under build/ and run its commands on the real code again."""
     data = json.load(open(path))
-    binary = os.environ.get("VERIF_C14_BIN") or vlib.build_harness("debug")
+    binary = vlib.build_harness("debug")
     scratch = os.path.join(vlib.BUILD, "c14-replay-%d" % os.getpid())
     rc = 0
     try:
